@@ -58,7 +58,7 @@ func (check) Cases(tier string) int {
 func (check) Exhaustive(string) bool { return false }
 
 func (check) Rule() string {
-	return "(1) exhaustively all reference graphs over 3 string settings with at most 2 references each (13^3 graphs); (2) random graphs over up to 8 settings (strings a..f, object o with members o.x, o.y) with references nested in defaults, alternatives, error operators and reference names, repeated uses, diamonds, self references, references from object members to ancestors and to the object itself, exact single references to the object; with 0 or 1 resolver. Every setting is read through String, Unpack (interface{} and string), Has, CountField, Child (object-valued), and the whole config through Unpack, FlattenedKeys and diff.CompareConfigs. A hook counts reference resolutions per read (budget 2*10^4, the read is aborted by the monitor beyond it); stack overflows kill the worker and are attributed to the journalled case. Outcomes are compared with the stack-based model evaluator by class: no re-entry -> exact value/failure; unabsorbed re-entry -> cyclic reference error; absorbed re-entry (by a default, an alternative or a resolver) -> the model's value. Non-trivial = the graph has at least one edge; distinct = distinct graph."
+	return "(1) exhaustively all reference graphs over 3 string settings with at most 2 references each (13^3 graphs); (2) random graphs over up to 8 settings (strings a..f, object o with members o.x, o.y) with references nested in defaults, alternatives, error operators and reference names, repeated uses, diamonds, self references, references from object members to ancestors and to the object itself, exact single references to the object; with 0 or 1 resolver. Every setting is read through String, Unpack (interface{} and string), Has, CountField, Child (object-valued), and the whole config through Unpack, FlattenedKeys and diff.CompareConfigs. A hook counts reference resolutions per read (budget 2*10^4, the read is aborted by the monitor beyond it); stack overflows kill the worker and are attributed to the journalled case. Outcomes are compared with the stack-based model evaluator by class: no re-entry -> exact value/failure; unabsorbed re-entry -> cyclic reference error; absorbed re-entry (by a default, an alternative or a resolver) -> the model's value. Non-trivial = the graph has at least one edge; distinct = distinct graph. (3) with every random graph a second, independently drawn configuration of nested objects, maps and lists (depth <= 3) whose object-valued positions are literal objects or exact single references - to each other, to enclosing objects, to themselves, to top-level settings that are references again (chains of 1..4+ references ending in an object), rarely to text or to nothing - and whose text members are splices/operators over other texts and over the object-valued positions (tests like ${obj:+yes} that differ inside and outside the evaluation of obj); 40% of them acyclic by construction, 1/3 with a resolver. It is unpacked into TYPED targets: two recursive struct types (members *T, map[string]*T, map[string]T, []*T, []T, *Config, string, interface{}; opposite declaration orders) - every top-level setting on its own, the whole config, literal objects through Child - each time into a fresh target, once more into the target just filled, and into a target pre-filled with empty objects (merge paths); *Config members are unpacked in a second call. Oracle: an evaluator that follows reference chains at object positions with an explicit stack (all references on the way stay under evaluation while the object they lead to is unpacked) and evaluates texts with the shared string model under that stack: some position fails -> the read fails (as cyclic reference error if every failing position is an unabsorbed re-entry); nothing fails -> the target holds exactly the model's values. Same step budget."
 }
 
 func (check) Assumptions() []string {
@@ -66,6 +66,8 @@ func (check) Assumptions() []string {
 		"re-entry means: the referenced name is on the evaluation stack of the current read (reading setting a is not yet a reference to a)",
 		"not demanded: which member of a cycle is named; which keys FlattenedKeys lists for settings holding references (C15 excludes references) - for FlattenedKeys/CompareConfigs only termination and, for reference-free parts, nothing else",
 		"step budget 2*10^4 resolutions per read for graphs of <= 8 settings with <= 3 references per string",
+		"typed reads: a read that fails for several reasons (cyclic and other) only has to fail; which failing position is reported is not compared; the Path of *Config members is not compared; configurations whose model evaluation needs more than 1500 steps are skipped (library reads stay below 2 resolutions per model step, far from the budget)",
+		"typed reads never generate a reference whose path leads THROUGH a reference-valued setting (${x.s} with x: ${a}), nor references to whole maps/lists at struct positions",
 	}
 }
 
@@ -176,6 +178,9 @@ func (check) Run(seed int64, tier string, idx int, verbose bool) harness.Result 
 	r := rand.New(rand.NewSource(harness.Mix(seed, "C08", idx)))
 	w := genWorld(r)
 	runWorld(res, w, r, verbose, idx < enumCases()+2)
+	// typed deep reads of a second, independently drawn configuration (own
+	// random stream: the graphs above stay what they were)
+	runTyped(res, rand.New(rand.NewSource(harness.Mix(seed, "C08/typed", idx))), verbose, idx < enumCases()+2)
 	return res.Done()
 }
 
